@@ -330,6 +330,27 @@ def run(ctx):
                 elif isinstance(t_, tuple) and t_[0] == "binop" and t_[1] == "Eq" and isinstance(t_[2], tuple) and t_[2][0] == "havoc" and const_int(t_[3]) is not None \
                         and body.f["locals"][t_[2][1]]["ty"] in ("i32", "usize", "u32", "i64", "u8", "u64", "isize"):
                     lname[t_[2][1]] = "field"
+        def enum_index_of_nonempty_fields(t):
+            """t is the index that .enumerate() gives the current field, where what is enumerated is the split of the line with the empty pieces
+            already filtered out (so that the index counts non-empty fields, like a counter stepped only for them)"""
+            t = deval(t)
+            if not (isinstance(t, tuple) and len(t) > 2 and t[0] == "field" and t[2] == 0 and isinstance(t[1], tuple) and t[1][0] == "field" and t[1][2] == 0
+                    and isinstance(t[1][1], tuple) and t[1][1][0] == "downcast" and t[1][1][2] == "Some" and is_call(strip_refs(t[1][1][1]), "Enumerate<I> as std::iter::Iterator>::next")):
+                return False
+            en = [x for x in subterms(t[1][1][1]) if is_call(x, "Iterator::enumerate")]
+            if len(en) != 1:
+                return False
+            src = strip_refs(call_args(en[0])[0])
+            if not (is_call(src, "Iterator::filter") and len(call_args(src)) == 2 and is_call(strip_refs(call_args(src)[0]), "[T]>::split")):
+                return False
+            clo = strip_refs(call_args(src)[1])
+            if not (isinstance(clo, tuple) and clo[:2] == ("agg", "closure")):
+                return False
+            rp = ret_paths(ctx.paths(clo[2]) or [])
+            if len(rp) != 1:
+                return False
+            r = rp[0].end[1]
+            return isinstance(r, tuple) and r[0] == "unop" and r[1] == "Not" and is_call(r[2], "[T]>::is_empty", "::is_empty") and deval(call_args(r[2])[0]) == ("param", 2)
         eff = {}
         for p in paths:
             if p.end[0] != "back":
@@ -338,6 +359,8 @@ def run(ctx):
             for c in p.conds():
                 ae = asserts_eq_const(c)       # `field == k` taken, or the arm k of `match field`
                 if ae is not None and isinstance(ae[0], tuple) and ae[0][0] == "havoc" and lname.get(ae[0][1]) == "field":
+                    ks.append(ae[1])
+                elif ae is not None and enum_index_of_nonempty_fields(ae[0]):
                     ks.append(ae[1])
             for k in ks:
                 hdr = p.end[1]
@@ -390,7 +413,13 @@ def run(ctx):
                             fb = strip_refs(a)
                             mid = payload_of(call_args(fb)[0], "[T]>::strip_suffix", ")") if is_call(fb, "::from_bytes") else None
                             whole = payload_of(mid, "[T]>::strip_prefix", "(") if mid is not None else None
-                            if whole is not None and isinstance(strip_refs(whole), tuple) and strip_refs(whole)[0] == "field" and is_call(strip_refs(strip_refs(whole)[1][1]), "Split<'a, T, P> as std::iter::Iterator>::next"):
+                            w_ = strip_refs(whole) if whole is not None else None
+                            # the field itself: the piece the split yields, directly or as the second half of an enumerate() item
+                            if isinstance(w_, tuple) and len(w_) > 2 and w_[0] == "field" and w_[2] == 1 and isinstance(w_[1], tuple) and w_[1][0] == "field" and w_[1][2] == 0 \
+                                    and enum_index_of_nonempty_fields(("field", w_[1], 0, "0")):
+                                inner = True
+                                par = {40, 41}
+                            elif whole is not None and isinstance(strip_refs(whole), tuple) and strip_refs(whole)[0] == "field" and is_call(strip_refs(strip_refs(whole)[1][1]), "Split<'a, T, P> as std::iter::Iterator>::next"):
                                 inner = True
                                 par = {40, 41}
                         ctx.check(raw and inner and par == {40, 41}, "D2-NAME-RAW", LFB, "name-field", "name = raw bytes strictly between '(' and ')'",
